@@ -106,9 +106,13 @@ def __{name}__(self, other):
                 i._{name}_array(other) for i in rows
             ])
         elif ndim == 2:
-            new = SparseArray.from_rows(
-                [i._{name}_array(j) for i, j in strict_zip(rows, other)]
-            )
+            if len(rows) == 1 and len(other) != 1: # Broadcast the single row
+                row = rows[0]
+                new = SparseArray.from_rows([row._{name}_array(j) for j in other])
+            else:
+                new = SparseArray.from_rows(
+                    [i._{name}_array(j) for i, j in strict_zip(rows, other)]
+                )
         else:
             new = self.to_array().__{name}__(other)
     return new
